@@ -257,13 +257,19 @@ func (idx *index) Close() error {
 
 // Shrink truncates the memory-mapped index file to the size of its contents.
 func (idx *index) Shrink() error {
-	idx.mu.RLock()
-	defer idx.mu.RUnlock()
+	idx.mu.Lock()
+	defer idx.mu.Unlock()
 	return idx.shrink()
 }
 
 func (idx *index) shrink() error {
-	return idx.file.Truncate(idx.position)
+	if err := idx.file.Truncate(idx.position); err != nil {
+		return err
+	}
+	// The file no longer backs the memory map past this point, so it has to
+	// be expanded again before anything is written to the index.
+	idx.size = idx.position
+	return nil
 }
 
 func (idx *index) Name() string {
